@@ -6,6 +6,7 @@ from fractions import Fraction
 
 def _values():
     yield from (0.0, -0.0, 1.0, -1.0, 12.0, 50.0, 52.0, 0.12, 846400000000.0, 5e-324, 1.7976931348623157e308, 1e15 - 1, 123456789012345.0)
+    yield from (1234567890123456, -9007199254740991, 4503599627370497, 2 ** 53, 10 ** 15 + 1)   # Python ints that need 16 significant digits
     for n in range(-300, 300):
         yield float(n)
         yield n / 100
@@ -27,7 +28,11 @@ def check_value(x):
     exp = (((b[15] & 0x7F) << 7) | (b[14] >> 1)) - DECIMAL128_BIAS
     m = int.from_bytes(bytes(b[:14]), "little") + ((b[14] & 1) << 112)
     exact = Fraction(m) * Fraction(10) ** exp * (-1 if b[15] & 0x80 else 1)
-    if float(exact) != x:
+    try:
+        stored_value = float(exact)
+    except OverflowError:
+        return {"violated": True, "detail": f"_pack_decimal128({x!r}) stores {m}e{exp} (sign bit {b[15] >> 7}), which is not a finite double"}
+    if stored_value != x:
         return {"violated": True, "detail": f"_pack_decimal128({x!r}) stores {m}e{exp} (sign bit {b[15] >> 7}), whose value is {float(exact)!r}"}
     try:
         y = _unpack_decimal128(b)
